@@ -98,6 +98,21 @@ Definition nonempty {A} (l : list A) : bool := match l with [] => false | _ => t
 Definition from_to (lay : layout) (n : nat) (a b : tree) : stream :=
   mk Removed (tprint lay n a) ++ arrow ++ mk Inserted (tprint lay n b).
 
+(* The same edit when it is an ITEM OF A LIST and its from-node is a MAPPING.  The edit is then printed by
+   JSONListFormatter, whose lookup for a DictNode / FixedKeyDictNode finds its own print_SequenceNode, which
+   "delegates to the parent formatter" by  self.parent.print(printer, node)  - with_edits is back to its default
+   True and the from-node still carries this very edit, so Replace.print runs a second time INSIDE the red
+   context of the first: from-node, " -> " (cyan on red: reads as removed) and the to-node (green) are written
+   there, then the outer call writes its own arrow and the to-node again:   from -> to -> to. *)
+Definition from_to_twice (lay : layout) (n : nat) (a b : tree) : stream :=
+  mk Removed (tprint lay n a) ++ mk Removed [32; 45; 62; 32] ++ mk Inserted (tprint lay n b) ++
+  arrow ++ mk Inserted (tprint lay n b).
+
+Definition is_mapping (t : tree) : bool := match t with MSet _ _ | FDict _ => true | _ => false end.
+Definition is_lst (t : tree) : bool := match t with Lst _ _ _ => true | _ => false end.
+Definition from_to_in (inl : bool) (lay : layout) (n : nat) (a b : tree) : stream :=
+  if inl && is_mapping a then from_to_twice lay n a b else from_to lay n a b.
+
 (* formatter.print(printer, EDIT): the edit is used whatever its cost.
      Match / Replace  -> their print methods; at cost 0 the TO node, plainly;
      StringEdit       -> print_StringEdit;
@@ -105,10 +120,10 @@ Definition from_to (lay : layout) (n : nat) (a b : tree) : stream :=
                          value are printed as NODES (rnode below);
      sequence edits   -> SequenceEdit.print = print_SequenceNode(from node), which walks node.edit.edits().
    A zero-cost Match listed by a MultiSetEdit is Match(n, n, 0): it prints the FROM node. *)
-Fixpoint redit (lay : layout) (n : nat) (a b : tree) (e : edit) {struct e} : stream :=
+Fixpoint redit (lay : layout) (n : nat) (inl : bool) (a b : tree) (e : edit) {struct e} : stream :=
   match e with
-  | EMatch c => if 0 <? c then from_to lay n a b else mk Plain (tprint lay n b)
-  | EReplace c => if 0 <? c then from_to lay n a b else mk Plain (tprint lay n b)
+  | EMatch c => if 0 <? c then from_to_in inl lay n a b else mk Plain (tprint lay n b)
+  | EReplace c => if 0 <? c then from_to_in inl lay n a b else mk Plain (tprint lay n b)
   | EStr _ ops => rstredit ops
   | EComp k _ subs =>
       if is_seq_kind k then
@@ -123,7 +138,7 @@ Fixpoint redit (lay : layout) (n : nat) (a b : tree) (e : edit) {struct e} : str
                        match k, e' with
                        | KMultiSet, EMatch c => if 0 <? c then from_to lay (S n) (child a i) (child b j)
                                                 else mk Plain (tprint lay (S n) (child a i))
-                       | _, _ => redit lay (S n) (child a i) (child b j) e'
+                       | _, _ => redit lay (S n) (is_lst a) (child a i) (child b j) e'
                        end) :: items r
                   | SRem i _ :: r => (IRem, mk Removed (tprint lay (S n) (child a i))) :: items r
                   | SIns j _ :: r => (IIns, mk Inserted (tprint lay (S n) (child b j))) :: items r
@@ -136,12 +151,12 @@ Fixpoint redit (lay : layout) (n : nat) (a b : tree) (e : edit) {struct e} : str
             (* formatter.print(printer, NODE): the node's edit is used only when has_non_zero_cost();
                a sequence node printed plainly still walks its own SequenceEdit *)
             (match ke with
-             | EComp _ _ _ => redit lay n (child a 0) (child b 0) ke
-             | _ => if 0 <? cost ke then redit lay n (child a 0) (child b 0) ke else mk Plain (tprint lay n (child a 0))
+             | EComp _ _ _ => redit lay n false (child a 0) (child b 0) ke
+             | _ => if 0 <? cost ke then redit lay n false (child a 0) (child b 0) ke else mk Plain (tprint lay n (child a 0))
              end) ++ mk Plain [58; 32] ++
             (match ve with
-             | EComp _ _ _ => redit lay n (child a 1) (child b 1) ve
-             | _ => if 0 <? cost ve then redit lay n (child a 1) (child b 1) ve else mk Plain (tprint lay n (child a 1))
+             | EComp _ _ _ => redit lay n false (child a 1) (child b 1) ve
+             | _ => if 0 <? cost ve then redit lay n false (child a 1) (child b 1) ve else mk Plain (tprint lay n (child a 1))
              end)
         | _ => mk Plain (tprint lay n a)
         end
@@ -149,11 +164,11 @@ Fixpoint redit (lay : layout) (n : nat) (a b : tree) (e : edit) {struct e} : str
 
 Definition rnode (lay : layout) (n : nat) (a b : tree) (e : edit) : stream :=
   match e with
-  | EComp _ _ _ => redit lay n a b e
-  | _ => if 0 <? cost e then redit lay n a b e else mk Plain (tprint lay n a)
+  | EComp _ _ _ => redit lay n false a b e
+  | _ => if 0 <? cost e then redit lay n false a b e else mk Plain (tprint lay n a)
   end.
 
-(* GraphtageFormatter.print(printer, a.diff(b)) *)
+(* GraphtageFormatter.print(printer, a.diff(b)): the root formatter is JSONFormatter itself *)
 Definition jrender (lay : layout) (a b : tree) (e : edit) : stream := rnode lay 0 a b e.
 
 (* ------------------------------------------------------------------ the documents the two projections spell
